@@ -9,7 +9,7 @@
     mathematical comparison of two values of one type). *)
 From Coq Require Import ZArith List Bool Strings.Byte.
 From YV Require Import Base.Wrap Val.Model Val.Proofs Tree.Schema Tree.Editor Tree.XPathLex Tree.When
-  Tree.WhenSpec Tree.WhenProofs.
+  Tree.WhenSpec Tree.XPathLexProofs Tree.WhenProofs.
 Import ListNotations.
 Open Scope Z_scope.
 
@@ -121,6 +121,55 @@ Theorem C16_filter_keeps : forall kids ev text p e b,
   filter_event kids text ev = if b then FKeep else FDrop.
 Proof. exact filter_keeps. Qed.
 Print Assumptions C16_filter_keeps.
+
+(** the supported shape  n1/.../leaf op literal  (names of name characters; a digit string, a decimal or
+    a quoted text as literal; any length below the parser's stack) is lexed and parsed into exactly
+    that comparison ... *)
+Theorem C16_parse_supported_shape : forall p lf o w l,
+  Forall name_ok p -> name_ok lf -> lit_ok w l -> (length p < stack_size)%nat ->
+  xparse (render p lf o w) = POk (map (fun n => (n, None)) p ++ [(lf, Some (o, l))]).
+Proof. exact xparse_render. Qed.
+Print Assumptions C16_parse_supported_shape.
+
+(** ... so that the TEXT of a when / where / filter expression is decided by the mathematical truth *)
+Theorem C16_text_truth : forall kids c p lf o w l r,
+  Forall name_ok p -> name_ok lf -> lit_ok w l -> (length p < stack_size)%nat ->
+  spec_cmp kids c (mkCmp p lf o l) = Some r ->
+  xpredicate kids c (render p lf o w) = XOk r.
+Proof. exact text_truth. Qed.
+Print Assumptions C16_text_truth.
+
+(** ** the listed findings, reproduced on the model (KNOWN_FINDINGS.txt k=1,2,5; k=3,4 are the
+    compiler's: the schema is an input here) *)
+Definition kf_meta (n : list byte) (w : option (list byte)) := mkMeta n [x6d] true [] w.
+(** k=1: leaf y { when "x=1" }  leaf x { when "z=1" }  leaf z : reading y's condition panics *)
+Example C16_kf1_operand_when_refuted :
+  xpredicate [SLeaf (kf_meta [x78] (Some [x7a;x3d;x31])) (TInt FInt32) false None;
+              SLeaf (kf_meta [x7a] None) (TInt FInt32) false None]
+             [Some (DLeaf (LV (VInt FInt32 1))); Some (DLeaf (LV (VInt FInt32 1)))]
+             [x78;x3d;x31] = XPanic.
+Proof. vm_compute. reflexivity. Qed.
+(** k=2: list l { when "x=1"; ... } present in the data: the read fails *)
+Example C16_kf2_list_when_refuted :
+  wexport true
+    [SList (kf_meta [x6c] (Some [x78;x3d;x31])) [0%nat]
+       (SCont (kf_meta [x6c] (Some [x78;x3d;x31]))
+          [SLeaf (kf_meta [x6b] None) TStr false None; SLeaf (kf_meta [x78] None) (TInt FInt32) false None])]
+    [Some (DList [DCont [Some (DLeaf (LV (VStr [x61]))); Some (DLeaf (LV (VInt FInt32 1)))]])] = XErr.
+Proof. vm_compute. reflexivity. Qed.
+(** k=5: writing container c { when "x=1"; leaf x } whose condition is false on the target fails *)
+Example C16_kf5_container_when_write_refuted :
+  wupsert [SCont (kf_meta [x63] (Some [x78;x3d;x31])) [SLeaf (kf_meta [x78] None) (TInt FInt32) false None]]
+          [Some (DCont [Some (DLeaf (LV (VInt FInt32 1)))])]
+          [Some (DCont [Some (DLeaf (LV (VInt FInt32 2)))])] = XErr.
+Proof. vm_compute. reflexivity. Qed.
+Print Assumptions C16_kf5_container_when_write_refuted.
+(** the defects repaired in node/xpath_impl.go: before the repair "!=" on an unset leaf was true
+    (now, with every operator: false) *)
+Example C16_unset_not_equal_is_false :
+  xpredicate [SLeaf (kf_meta [x76] None) (TInt FInt32) false None] [None] [x76;x21;x3d;x33] = XOk false /\
+  xpredicate [SLeaf (kf_meta [x76] None) (TInt FInt32) false None] [None] [x76;x3c;x33] = XOk false.
+Proof. vm_compute. split; reflexivity. Qed.
 
 (** non-vacuity: the hypotheses of C16_cmp_sound / C16_unset_false are met; uint64 beyond int64,
     a quoted negative literal, an unset operand under "!=" and under "<" *)
